@@ -188,6 +188,9 @@ func genReqHeaders(rng *rand.Rand, want []string) [][2]string {
 		name := want[i]
 		if rng.Intn(4) == 0 {
 			name = strings.ToUpper(name)
+		} else if rng.Intn(6) == 0 {
+			// the value arrives under another header's name: a header spelled like the constrained one is not that header
+			name = []string{strings.ReplaceAll(name, "-", "_"), strings.ReplaceAll(name, "-", ""), "HTTP_" + strings.ToUpper(strings.ReplaceAll(name, "-", "_")), name + "-", name + "2", "X-" + name, strings.TrimPrefix(name, "X-"), strings.ReplaceAll(name, "-", "--"), "X-Forwarded-" + name}[rng.Intn(9)]
 		}
 		out = append(out, [2]string{name, v})
 	}
